@@ -182,16 +182,29 @@ Qed.
 
 (** the TOC loop: every successful round advances the offset by at least one byte, so the fuel (the end offset of
     the TOC section) is never exhausted *)
+Lemma read_uvarint_in : forall f off v off1, off < W32 -> read_uvarint f off = Ok (v, off1) -> off + 1 <= f_len f mod W32.
+Proof.
+  intros f off v off1 Hoff H. unfold read_uvarint in H. cbn [read_uvarint_from] in H.
+  destruct (file_read f off 1) as [b|e|w] eqn:F; try discriminate.
+  unfold file_read in F. destruct (((off + 1) mod W32 <? off) || (f_len f mod W32 <? (off + 1) mod W32)) eqn:E; [discriminate|].
+  assert (Hm : (off + 1) mod W32 = off + 1 \/ (off + 1) mod W32 = 0).
+  { destruct (N.eq_dec (off + 1) W32) as [->|Hne]; [right; reflexivity|left; apply N.mod_small; lia]. }
+  destruct Hm as [Hm|Hm]; rewrite Hm in E; [lia|].
+  assert (off + 1 = W32) by (destruct (N.eq_dec (off + 1) W32); [assumption|rewrite N.mod_small in Hm by lia; lia]). 
+  unfold W32 in *. lia.
+Qed.
+
 Lemma read_tagged_total : forall f fuel off tocend wanted acc, off < W32 -> tocend < W32 ->
-  (N.to_nat tocend - N.to_nat off <= fuel)%nat ->
+  (N.to_nat (N.min tocend (f_len f mod W32)) - N.to_nat off + 1 <= fuel)%nat ->
   total (read_tagged f fuel off tocend wanted acc).
 Proof.
   intros f fuel. induction fuel as [|k IH]; intros off tocend wanted acc Hoff Hend Hf.
-  - simpl. replace (tocend <=? off) with true by lia. apply total_ok.
+  - lia.
   - cbn [read_tagged]. destruct (tocend <=? off) eqn:E; [apply total_ok|].
     unfold read_str.
     destruct (read_uvarint f off) as [[slen off1]|e|w] eqn:Eu; cbn [obind];
       [|apply total_err|exfalso; exact (read_uvarint_from_total f 10 off 0 0 w Eu)].
+    pose proof (read_uvarint_in f off slen off1 Hoff Eu) as Hin.
     destruct (read_uvarint_from_adv f 10 off 0 0 slen off1 Hoff Eu) as [Hadv Hlt1].
     destruct (file_read f off1 (slen mod W32)) as [b|e|w] eqn:Efr; cbn [obind];
       [|apply total_err|exfalso; exact (file_read_total f off1 _ w Efr)].
@@ -398,12 +411,58 @@ Proof.
   all: lia.
 Qed.
 
-(* ------------------------------------------------------------------ one shard's error aborts the sharded search *)
-Lemma isolation_refuted :
+(* ------------------------------------------------------------------ isolation of the healthy shards *)
+
+(** before the repair: one shard's error aborted the sharded search *)
+Lemma isolation_unfixed_refuted :
+  exists h c, load_shard (mmap_file iso_healthy) false = Ok h /\ load_shard (mmap_file witness_oob) false = Ok c
+    /\ sharded_search_unfixed [h] iso_ngram = Ok ([[8]], 0)
+    /\ shard_ngram_search c iso_ngram = Err E_OOB
+    /\ sharded_search_unfixed [h; c] iso_ngram = Err E_OOB.
+Proof.
+  eexists. eexists. split; [vm_compute; reflexivity|]. split; [vm_compute; reflexivity|].
+  split; [vm_compute; reflexivity|]. split; vm_compute; reflexivity.
+Qed.
+
+(** the first posting-list read of a search never panics (IndexFile.Read returns errors) *)
+Lemma shard_ngram_search_total : forall d g, total (shard_ngram_search d g).
+Proof.
+  intros d g. unfold shard_ngram_search. apply total_bind; [apply blob_of_total|]. intros text _. apply file_read_total.
+Qed.
+
+(** after the repair: for EVERY list of loaded shards (corrupt or not, in any order) the sharded search succeeds,
+    returns exactly the answers of the shards that answer, in order, and counts the others *)
+Theorem sharded_search_isolated : forall shards g,
+  sharded_search shards g = Ok (shard_answers shards g, shard_failures shards g).
+Proof.
+  induction shards as [|d rest IH]; intros g; [reflexivity|].
+  cbn [sharded_search]. rewrite IH. cbn [obind fst snd].
+  unfold shard_answers, shard_failures. cbn [flat_map filter].
+  pose proof (shard_ngram_search_total d g) as Ht.
+  destruct (shard_ngram_search d g) as [r|e|w] eqn:E; cbn [is_ok negb app].
+  - reflexivity.
+  - f_equal. f_equal. unfold nlen. cbn [length]. lia.
+  - exfalso. apply (Ht w). reflexivity.
+Qed.
+
+(** a failing shard anywhere in the directory does not change what the others return *)
+Corollary sharded_search_others_unaffected : forall l1 c l2 g, is_ok (shard_ngram_search c g) = false ->
+  exists n, sharded_search (l1 ++ c :: l2) g = Ok (shard_answers (l1 ++ l2) g, n)
+            /\ sharded_search (l1 ++ l2) g = Ok (shard_answers (l1 ++ l2) g, shard_failures (l1 ++ l2) g)
+            /\ n = shard_failures (l1 ++ l2) g + 1.
+Proof.
+  intros l1 c l2 g Hc. rewrite !sharded_search_isolated. eexists. split; [|split; [reflexivity|]].
+  - f_equal. f_equal. unfold shard_answers. rewrite !flat_map_app. cbn [flat_map].
+    destruct (shard_ngram_search c g); [discriminate| |]; reflexivity.
+  - unfold shard_failures. rewrite !filter_app. cbn [filter]. rewrite Hc. cbn [negb].
+    unfold nlen. rewrite !app_length. cbn [length]. lia.
+Qed.
+
+Lemma isolation_witness :
   exists h c, load_shard (mmap_file iso_healthy) false = Ok h /\ load_shard (mmap_file witness_oob) false = Ok c
     /\ sharded_search [h] iso_ngram = Ok ([[8]], 0)
     /\ shard_ngram_search c iso_ngram = Err E_OOB
-    /\ sharded_search [h; c] iso_ngram = Err E_OOB.
+    /\ sharded_search [h; c] iso_ngram = Ok ([[8]], 1).
 Proof.
   eexists. eexists. split; [vm_compute; reflexivity|]. split; [vm_compute; reflexivity|].
   split; [vm_compute; reflexivity|]. split; vm_compute; reflexivity.
